@@ -1268,7 +1268,12 @@ class ClientRequest(ClientRequestBase):
         self._body = body
 
         # enable chunked encoding if needed
-        if not self.chunked and hdrs.CONTENT_LENGTH not in self.headers:
+        if (
+            not self.chunked
+            and hdrs.CONTENT_LENGTH not in self.headers
+            # a caller-supplied "Transfer-Encoding: chunked" already frames the body
+            and "chunked" not in self.headers.get(hdrs.TRANSFER_ENCODING, "").lower()
+        ):
             if (size := body.size) is not None:
                 self.headers[hdrs.CONTENT_LENGTH] = str(size)
             else:
@@ -1438,7 +1443,10 @@ class ClientRequest(ClientRequestBase):
         if self.compress:
             writer.enable_compression(self.compress)
 
-        if self.chunked is not None:
+        # The body framing must be what the header block announces: chunk
+        # framing exactly when "Transfer-Encoding: chunked" is being sent
+        # (set by us for chunked=True / unknown size, or by the caller).
+        if "chunked" in self.headers.get(hdrs.TRANSFER_ENCODING, "").lower():
             writer.enable_chunking()
         return writer
 
